@@ -3,7 +3,7 @@ from vlib import *
 
 LEVEL = "proof"
 THEOREMS = ["register_all_inserted", "register_perm", "register_perm_needs_disjoint",
-            "canon_order_independent", "output_order_independent"]
+            "canon_order_independent", "output_order_independent", "error_free_perm"]
 
 
 def _replay_file(ctx):
